@@ -415,6 +415,30 @@ theorem malvar_constant_level (cfa : Cfa) (m n : ℕ) (v : Rat) (ch : Chan) (R C
       simp [convolve5, Num.sumTo, kernelAt, Model.C16.kernelGAtRB, Model.C16.kernelRAtGInRB, Model.C16.kernelRAtGInBR,
         Model.C16.kernelRAtBInBB, Model.C16.malvarDivisor, Num.ofInt] <;> ring
 
+/-- the green sample of `demosaic_deinterlace` is the mean of the two green samples, over any field (whatever the
+spelling of the average in the source) -/
+theorem gen_deinterlace {K : Type} [Field K] (g1 g2 : K) : Generated.C16.deinterlaceGreen g1 g2 = (g1 + g2) / 2 := by
+  first
+    | (simp only [Generated.C16.deinterlaceGreen, Model.C16.deinterlaceGreen, Num.ofInt]; push_cast; ring)
+    | (simp only [Generated.C16.deinterlaceGreen, Model.C16.deinterlaceGreen, Num.ofInt, Num.ofFrac]; push_cast; ring)
+    | (simp [Generated.C16.deinterlaceGreen, Model.C16.deinterlaceGreen, Num.ofInt]; ring)
+
+/-- `demosaic_deinterlace` of a mosaic assembled from four planes returns the red and the blue plane sample for sample
+(raw samples, no crosstalk) and the mean of the two green planes, both layouts — in particular equal greens keep
+their level -/
+theorem deinterlace_of_recomposite (cfa : Cfa) (planes : Plane → ℕ → ℕ → Rat) (i j : ℕ) :
+    let mosaic := fun R C => (recomposite Generated.C16.siteSlices (Generated.C16.recompPlane cfa) planes R C).getD 0
+    deinterlace Generated.C16.siteSlices (Generated.C16.decompSite cfa) Generated.C16.deinterlaceGreen mosaic .red i j
+        = planes .r i j ∧
+    deinterlace Generated.C16.siteSlices (Generated.C16.decompSite cfa) Generated.C16.deinterlaceGreen mosaic .blue i j
+        = planes .b i j ∧
+    deinterlace Generated.C16.siteSlices (Generated.C16.decompSite cfa) Generated.C16.deinterlaceGreen mosaic .green i j
+        = (planes .g1 i j + planes .g2 i j) / 2 := by
+  intro mosaic
+  have h : ∀ p, decomposite Generated.C16.siteSlices (Generated.C16.decompSite cfa) mosaic p i j = planes p i j := fun p => by
+    simp only [decomposite, mosaic, decomposite_recomposite, Option.getD_some]
+  exact ⟨by simp only [deinterlace, h], by simp only [deinterlace, h], by simp only [deinterlace, h, gen_deinterlace]⟩
+
 /-- the mosaic of a spatially uniform colour `col` under the plane table `rt`: each site holds the level of the colour
 that lives there -/
 def colourMosaic (rt : Site → Plane) (col : Chan → Rat) : ℕ → ℕ → Rat :=
